@@ -138,6 +138,16 @@ CHECKS = {
         "schedule is replayed with real keys and proofs: scalar count and blinded set after each step, the value of each published "
         "scalar, final verification, unblinding and explicit proofs.",
    note="every party has an output to blind (quantifier); Z_5 stands for the scalar field; 6 ownership templates."),
+ "C07": dict(
+   cat="model_checking", design="§4 C07",
+   technique="TLA+ specification of the PSET key-value codec (wire-type tables, pair identity, mandatory-field and output rules, "
+             "canonical order), TLC-checked session machine of edits; field-subset and edit cases replayed on real PSETs through an own "
+             "key-value reader/writer; byte- and pair-level mutation traces validated",
+   text="TLC explores every pair string within two edits of canonical encodings per map kind and checks round trip, canonical fixpoint, "
+        "order insensitivity and the refusal rules; the harness builds real PSETs for every emitted field subset (bytes and base64 round "
+        "trip, fixpoint, wire types per the specification's tables), applies every emitted edit to a fully populated PSET with its own "
+        "writer and compares the decoder's verdict, and validates recorded mutations of repository vectors against the codec contract.",
+   note="per-field value codecs are exercised, not modelled; one representative value per field."),
 }
 NA_PENDING = "check not built yet in this round (planned, see DESIGN.md §4)"
 
